@@ -12,7 +12,8 @@ Open Scope N_scope.
 Inductive c18case :=
 | CReuse (typ msize : N) (wire : list N) (old : dump) (reused : bool) (rec fresh : rawres)
 | CSrv (sent seen : dump)
-| CCut (msize : N) (wire : list N) (a b : rawres)   (* a frame cut mid-body, received twice after different earlier messages *)
+| CCut (msize : N) (wire : list N) (a b : rawres)   (* one frame received twice after different earlier pool content *)
+| COver (typ n present appended : N) (rejected : bool)  (* list count n backed by [present] elements only: elements appended to the object *)
 | C18Bad.
 
 Definition property_holds (c : c18case) : bool :=
@@ -20,6 +21,9 @@ Definition property_holds (c : c18case) : bool :=
   | CReuse _ _ _ _ _ rec fresh => rawres_eqb rec fresh
   | CSrv sent seen => dump_eqb sent seen
   | CCut _ _ a b => rawres_eqb a b
+  | COver _ n present appended rejected =>
+      (* the frame is rejected, and decoding stopped at the first element that did not fit *)
+      if present <? n then rejected && (appended <=? present + 1) else true
   | C18Bad => true
   end.
 
@@ -54,7 +58,8 @@ Fixpoint anon (vs : list cval) : option dump :=
 Inductive c18c :=
 | KReuse (typ : byte) (msize : list byte) (wire : list cseg) (old : list cval) (reused : bool) (rec fresh : cres)
 | KSrv (sent seen : list cval)
-| KCut (msize : list byte) (wire : list cseg) (a b : cres).
+| KCut (msize : list byte) (wire : list cseg) (a b : cres)
+| KOver (typ : byte) (n present appended : list byte) (rejected : bool).
 
 Definition to_case18 (sc : schema) (c : c18c) : c18case :=
   match c with
@@ -72,6 +77,7 @@ Definition to_case18 (sc : schema) (c : c18c) : c18case :=
       | Some x, Some y => CSrv x y
       | _, _ => C18Bad
       end
+  | KOver typ n present appended rejected => COver (bN typ) (le_num n) (le_num present) (le_num appended) rejected
   | KCut msize wire a b =>
       match mk_res sc None a, mk_res sc None b with
       | Some x, Some y => CCut (le_num msize) (expand wire) x y
